@@ -109,6 +109,9 @@ func genCase(t *rapid.T) Case {
 		}
 		if gen.Pick(t, 2, "rlimit") == 0 {
 			ac.Ctx.Emax, ac.Ctx.Emin = gen.Limit, -gen.Limit
+			if gen.Pick(t, 2, "rjit") == 0 {
+				ac.Ctx.Emin += int32(rapid.IntRange(1, int(ac.Ctx.P)+3).Draw(t, "rjitv")) // just above the package limit
+			}
 			if ac.X.Form == 0 {
 				nd := int32(len(ac.X.Coeff))
 				switch gen.Pick(t, 3, "redge") {
